@@ -287,15 +287,18 @@ def runSimple (e : Env) (argv : List (List Char)) : Env × List Exec :=
       else (e, [{ argv := argv, env := e }])
   | _ => (e, [{ argv := argv, env := e }])
 
-/-- split the item list at `;`, `&&`, newline (every command assumed to succeed); other operators are kept
-    inside the segment (and make `wordsOf` ignore them: pipes and redirections are not interpreted) -/
+/-- `;`, `&&`, newline separate the commands of a list (every command is assumed to succeed) -/
+def isSep (i : Item) : Bool := i == .op [';'] || i == .op ['&', '&'] || i == .op ['\n']
+
+def consHead (i : Item) : List (List Item) → List (List Item)
+  | seg :: segs => (i :: seg) :: segs
+  | [] => [[i]]
+
+/-- split the item list at the separators; other operators are kept inside the segment (pipes and redirections
+    are not interpreted) -/
 def splitSeq : List Item → List (List Item)
   | [] => [[]]
-  | i :: r =>
-      match splitSeq r with
-      | [] => [[]]
-      | seg :: segs =>
-          if i = .op [';'] ∨ i = .op ['&', '&'] ∨ i = .op ['\n'] then [] :: seg :: segs else (i :: seg) :: segs
+  | i :: r => if isSep i then [] :: splitSeq r else consHead i (splitSeq r)
 
 def runSegs (e : Env) : List (List Item) → Option (Env × List Exec)
   | [] => some (e, [])
